@@ -583,8 +583,19 @@ func (h *rcH) step(a rcAct) (res string) {
 			}
 			time.Sleep(20 * time.Millisecond) // whatever the client wrote while shutting down has arrived by now
 		}
-	case "Ready":
-		if err := h.c.Ready(ctx, uint64(a.K)); err != nil {
+	case "Ready", "ReadyRace":
+		// one Ready at a time in this process: the hook between "ready written" and "next id stored" belongs to the caller
+		rcReadyMu.Lock()
+		if a.A == "ReadyRace" {
+			rcReadyHook = func() { // the service answers the ready message at once with the tx that has the declared id
+				h.send(&Tx{ID: uint64(a.K), Tx: rcTx(a.K % 30), Outputs: []*wire.TxOut{wire.NewTxOut(1, []byte{0x51})}})
+				h.barrier()
+			}
+		}
+		err := h.c.Ready(ctx, uint64(a.K))
+		rcReadyHook = nil
+		rcReadyMu.Unlock()
+		if err != nil {
 			return "Ready: " + err.Error()
 		}
 		h.pump(1+h.buf, rcWait)
@@ -761,6 +772,11 @@ func (h *rcH) step(a rcAct) (res string) {
 // it has been routed and delivered.
 const rcMarker = 9999
 
+var (
+	rcReadyMu   sync.Mutex
+	rcReadyHook func()
+)
+
 func (h *rcH) markers() int {
 	n := 0
 	for _, d := range h.h2.snapshot() { // the handler registered last
@@ -919,6 +935,11 @@ func TestVerifReplayRemoteClient(t *testing.T) {
 	verifHook = func(point string) {
 		if point == "conn.teardown" {
 			time.Sleep(5 * time.Millisecond)
+		}
+		if point == "ready.sent" {
+			if f := rcReadyHook; f != nil {
+				f()
+			}
 		}
 	}
 	var in struct {
